@@ -141,6 +141,44 @@ theorem argument_followed_by_separator (fuel : Nat) (ts : List Tok) (acc : List 
         exact ⟨t, r', hr, he, .inr hk⟩
       · cases h
 
+/-- **every first item of an accepted list is followed by `,` or `]`** (and so, by the recursion of `elements`, every item): in a list of
+plain values the parser goes on after an item only at a comma, and closes the list only at `]` - two items in a row are rejected -/
+theorem list_item_followed_by_separator (fuel : Nat) (ts : List Tok) (v : EVal) (rest : List Tok)
+    (h : listBody fuel ts = .ok (v, rest)) (hne : peek ts ≠ .ok (some .rbrack)) (hp : atPair ts = false) :
+    ∃ f e r, expression f ts = .ok (e, r) ∧ ∃ t r', r = t :: r' ∧ t.isErr = false ∧ (t.kind = .comma ∨ t.kind = .rbrack) := by
+  cases fuel with
+  | zero => rw [listBody] at h; cases h
+  | succ fuel =>
+    rw [listBody] at h
+    split at h
+    · cases h
+    · rename_i hpk; exact absurd hpk hne
+    · split at h
+      · cases h
+      · rename_i v' rest' hel
+        cases fuel with
+        | zero => rw [elements] at hel; cases hel
+        | succ fuel =>
+          rw [elements] at hel
+          simp only [hp, Bool.false_eq_true, if_false] at hel
+          split at hel
+          · cases hel
+          · rename_i e r hex
+            refine ⟨fuel, e, r, hex, ?_⟩
+            split at hel
+            · cases hel
+            · rename_i hpk
+              obtain ⟨t, r', hr, he, hk⟩ := peek_some hpk
+              exact ⟨t, r', hr, he, .inl hk⟩
+            · injection hel with hel
+              injection hel with _ hrest
+              subst hrest
+              split at h
+              · cases h
+              · rename_i t r' hx
+                obtain ⟨h1, he, hk⟩ := expect_ok hx
+                exact ⟨t, r', h1, he, .inr hk⟩
+
 /-- non-vacuity: the head of `A = B(X = 1)` and of the EEMS 2.0 form `B(X = 1)`; `A = B(X = "a", Y = 2)` is accepted, without the comma it is a syntax error -/
 example :
     let i (s : String) : Tok := ⟨.id, .str s, 1⟩
@@ -149,7 +187,9 @@ example :
     CommandHead [i "B", p .lparen, i "X", p .equal, ⟨.int, .int 1, 1⟩, p .rparen] ∧
     isAccepted (parseToks [i "B", p .lparen, i "X", p .equal, ⟨.int, .int 1, 1⟩, p .rparen]) = true ∧
     isAccepted (parseToks [i "A", p .equal, i "B", p .lparen, i "X", p .equal, ⟨.string, .str "a", 1⟩, p .comma, i "Y", p .equal, ⟨.int, .int 2, 1⟩, p .rparen]) = true ∧
-    isSyntaxError (parseToks [i "A", p .equal, i "B", p .lparen, i "X", p .equal, ⟨.string, .str "a", 1⟩, i "Y", p .equal, ⟨.int, .int 2, 1⟩, p .rparen]) = true := by
-  refine ⟨⟨_, _, rfl, rfl, rfl, .inl ⟨_, _, _, _, rfl, rfl, rfl, rfl⟩⟩, ⟨_, _, rfl, rfl, rfl, .inr ⟨_, _, rfl, rfl⟩⟩, by decide +kernel, by decide +kernel, by decide +kernel⟩
+    isSyntaxError (parseToks [i "A", p .equal, i "B", p .lparen, i "X", p .equal, ⟨.string, .str "a", 1⟩, i "Y", p .equal, ⟨.int, .int 2, 1⟩, p .rparen]) = true ∧
+    isAccepted (parseToks [i "A", p .equal, i "B", p .lparen, i "X", p .equal, p .lbrack, ⟨.string, .str "a", 1⟩, p .comma, ⟨.string, .str "b", 1⟩, p .rbrack, p .rparen]) = true ∧
+    isSyntaxError (parseToks [i "A", p .equal, i "B", p .lparen, i "X", p .equal, p .lbrack, ⟨.string, .str "a", 1⟩, ⟨.string, .str "b", 1⟩, p .rbrack, p .rparen]) = true := by
+  refine ⟨⟨_, _, rfl, rfl, rfl, .inl ⟨_, _, _, _, rfl, rfl, rfl, rfl⟩⟩, ⟨_, _, rfl, rfl, rfl, .inr ⟨_, _, rfl, rfl⟩⟩, by decide +kernel, by decide +kernel, by decide +kernel, by decide +kernel, by decide +kernel⟩
 
 end MPilot.C10R
